@@ -28,10 +28,11 @@ Fixpoint set_key (k : bytes) (c : jv) (kvs : list (bytes * jv)) : list (bytes * 
   | [] => [(k, c)]
   | (k', v) :: r => if bytes_eqb k k' then (k', c) :: r else (k', v) :: set_key k c r
   end.
+(* delete(tv, k) *)
 Fixpoint del_key (k : bytes) (kvs : list (bytes * jv)) : list (bytes * jv) :=
   match kvs with
   | [] => []
-  | (k', v) :: r => if bytes_eqb k k' then r else (k', v) :: del_key k r
+  | (k', v) :: r => if bytes_eqb k k' then del_key k r else (k', v) :: del_key k r
   end.
 (* i < 0 means len + i; None when out of bounds *)
 Definition norm_idx (i : Z) (n : nat) : option nat :=
